@@ -266,6 +266,17 @@ pub fn skfields<S: MlDsa>(seed: u64, thorough: bool, out: &mut Out) {
         let r = guarded(|| S::sk_from(&b).is_ok());
         match r { Ok(ok) => keep.push((format!("multi-field patch {}", t), b, ok)), Err((loc, msg)) => out.ev(json!({"ev": "Panic", "set": S::SET, "what": format!("sk try_from_bytes | {}: {}", loc, msg)})) }
     }
+    // exactly two, three and four out-of-range fields inside ONE polynomial (a test that folds the per-coefficient results
+    // wrongly - parity, last-one-wins - passes every single-field case)
+    for t in 0..(if thorough { 60 } else { 12 }) {
+        let poly = p.below((S::L + S::K) as u64) as usize;
+        let nbad = 2 + t % 3;
+        let mut b = base.clone();
+        let mut used: Vec<usize> = vec![];
+        while used.len() < nbad { let c0 = p.below(256) as usize; if !used.contains(&c0) { used.push(c0); patch_field(&mut b, c, poly * 256 + c0, 2 * S::ETA as u32 + 1 + p.below((1 << c) - 2 * S::ETA as u64 - 1) as u32); } }
+        let r = guarded(|| S::sk_from(&b).is_ok());
+        match r { Ok(ok) => keep.push((format!("{} out-of-range fields in polynomial {}", nbad, poly), b, ok)), Err((loc, msg)) => out.ev(json!({"ev": "Panic", "set": S::SET, "what": format!("sk try_from_bytes | {}: {}", loc, msg)})) }
+    }
     // extremal keys: every coefficient at -eta / +eta / alternating; t0 section all 00 / all FF
     for (name, val) in [("all fields 0 (= +eta)", 0u32), ("all fields 2*eta (= -eta)", 2 * S::ETA as u32), ("all fields 2*eta+1", 2 * S::ETA as u32 + 1), ("all fields max", (1 << c) - 1)] {
         let mut b = base.clone(); for idx in 0..nfields { patch_field(&mut b, c, idx, val); }
